@@ -141,3 +141,35 @@ CHECKS["C06"] = dict(
         level_note="Trusts the snapshot reading of private tables; time is simulated by generating audio on the NP2 core at 8 kHz.",
     ),
 )
+
+CHECKS["C03"] = dict(
+    harnesses={"pbt": dict(src="c03_api.cpp", cfg="asan", kind="rc"),
+               "fuzz": dict(src="c03_api.cpp", cfg="asan", kind="fuzz", extra_flags=["-DVERIF_FUZZ"])},
+    quick=[
+        dict(name="pbt", harness="pbt", workers=8, args=["--n", "500", "--maxlen", "150"]),
+        dict(name="fuzz", harness="fuzz", workers=8, args=["-runs=4000", "-max_len=4096"], seeds=False),
+    ],
+    thorough=[
+        dict(name="pbt", harness="pbt", workers=16, args=["--n", "8000", "--maxlen", "400"], timeout=10800),
+        dict(name="fuzz", harness="fuzz", workers=16, args=["-max_total_time=1200", "-max_len=8192"], seeds=False, timeout=7200),
+    ],
+    rule="generated sequences (rapidcheck: <=150/400 calls; libFuzzer: decoded from bytes, <=400 calls) over 73 call kinds covering every exported function, "
+         "arguments from a boundary list (INT_MIN..INT_MAX, 0/15/16/17/126/127/128/255/...) mixed with uniform bytes, valid/truncated/garbage bank and music blobs "
+         "(memory and file variants), all 9 emulator ids + invalid ones, chip counts, 9 sample rates, hooks, close/re-init; correctly sized exact heap buffers. "
+         "Oracle: ASan/UBSan/assert/terminate, CPU-time watchdog, and the documented-failure table (return values). Non-trivial = calls from >=3 API groups "
+         "(setup, bank, rt, sysex, sequencer, audio) and at least one boundary argument; distinct by FNV-64 of the case.",
+    assumptions=[
+        "bank handles are used only while live (removed handles / handles from before a bank load are caller misuse)",
+        "audio rendered per case is capped by a weighted chip-frame budget so slow cores cannot starve the run (skips are counted)",
+        "time arguments are finite doubles (no NaN)",
+        "UBSan checks shift-base and signed-integer-overflow are disabled tree-wide (they fire inside third-party emulator cores in normal operation)",
+    ],
+    min_nontrivial={"quick": 500, "thorough": 5000},
+    manifest=dict(
+        engine="rapidcheck + libFuzzer",
+        technique="API-sequence fuzzing (rapidcheck structured call lists with shrinking + coverage-guided libFuzzer on the same decoder) under ASan/UBSan with a return-value oracle and CPU watchdog",
+        level_text="Random and coverage-guided call sequences over the whole exported API with hostile argument values; memory errors, UB, aborts, hangs (CPU time) "
+                   "and wrong error returns are failures. Sampled exploration of an unbounded space.",
+        level_note="Trusts sanitizers to surface memory errors; hang detection is a 120 s CPU-time budget per case.",
+    ),
+)
